@@ -37,7 +37,9 @@ class Latch {
    * Decrement the counter in a non-blocking manner.
    **/
   void count_down(uint32_t n = 1) noexcept {
-    if (impl_.intrusiveStatus().fetch_sub(n, std::memory_order_acq_rel) == 1) {
+    // The waiters must be released by whichever call takes the count to zero, i.e. when the previous
+    // value equals n (not only when it was 1): count_down(2) on a count of 2 has to wake them too.
+    if (static_cast<uint32_t>(impl_.intrusiveStatus().fetch_sub(n, std::memory_order_acq_rel)) == n) {
       impl_.notify(0);
     }
   }
